@@ -40,6 +40,10 @@ pub enum Noise {
     /// (observed) Issue operation but under another key of the same algorithm issues the very
     /// same request — byte-identical to-be-signed data under two different keys
     Rollover(Op),
+    /// many other issuers pass through the process: `n` distinct Ed25519 CAs (remote keys on a
+    /// bus of their own), each self-signs, signs one CRL and issues one certificate — what
+    /// fills, and overflows, any bounded process-wide table
+    Flood { n: u32, seed: u64 },
 }
 
 #[derive(Clone, Debug, PartialEq, Eq, Serialize, Deserialize)]
@@ -55,6 +59,10 @@ pub enum HStep {
     /// the observed Issue call with the subject key given as a *second object* for the same key
     /// (re-loaded), so that subject and signing key are never the same object
     ObserveReloadedSubject(usize),
+    /// the observed call made from *inside* a remote signer's `sign` callback, while another
+    /// generation (a self-signed certificate under the remote key in slot `carrier`) is in
+    /// progress on the same thread
+    ObserveNested { obs: usize, carrier: usize },
     Noise(Noise),
 }
 
@@ -152,6 +160,11 @@ impl Engine for PurityHist {
             if matches!(op, Op::Issue { .. }) && r.chance(1, 2) {
                 history.push(HStep::ObserveReloadedSubject(i));
             }
+            if r.chance(1, 3) {
+                if let Some(carrier) = (0..slots.len()).filter(|k| matches!(slots[*k].custody, Custody::Remote)).last() {
+                    history.push(HStep::ObserveNested { obs: i, carrier });
+                }
+            }
             if let Op::SelfSign { recipe, .. } | Op::Issue { recipe, .. } | Op::Csr { recipe, .. } = op {
                 if r.chance(2, 3) {
                     history.push(HStep::ObserveTwin { obs: i, split: r.usize(recipe.dn.0.len() + 1) });
@@ -175,6 +188,9 @@ impl Engine for PurityHist {
             if matches!(op, Op::Issue { .. }) && r.chance(1, 2) {
                 history.push(HStep::Noise(Noise::Rollover(op.clone())));
             }
+        }
+        if r.chance(1, 25) {
+            history.push(HStep::Noise(Noise::Flood { n: *r.pick(&[1100u32, 1100, 2100, 4200]), seed: r.next_u64() }));
         }
         while history.len() < len {
             let key = r.usize(n_keys);
@@ -267,6 +283,44 @@ impl Engine for PurityHist {
                                 o.violate(&c, format!("step {step} observe[{i}] {}: {d}", op.kind()));
                                 break;
                             }
+                        }
+                    }
+                }
+                HStep::ObserveNested { obs, carrier } => {
+                    let Some(op) = t.observed.get(*obs) else { continue };
+                    let Some(ck) = w.keys.get(*carrier).filter(|k| k.is_remote()) else { continue };
+                    let slot: std::rc::Rc<std::cell::RefCell<Option<crate::world::OpResult>>> = Default::default();
+                    {
+                        let out = slot.clone();
+                        let wr: &World = &w;
+                        let f: Box<dyn FnOnce() + '_> = Box::new(move || {
+                            *out.borrow_mut() = Some(wr.exec_ro(op).0);
+                        });
+                        // the closure borrows the world and the trace; it is consumed by the signer
+                        // call below or taken back right after it, before either can go away
+                        let f: Box<dyn FnOnce() + 'static> = unsafe { std::mem::transmute(f) };
+                        crate::signer::NESTED.with(|n| *n.borrow_mut() = Some(f));
+                        let mut p = rcgen::CertificateParams::default();
+                        p.distinguished_name.push(rcgen::DnType::CommonName, "carrier of a nested generation");
+                        let _ = guarded(|| p.self_signed(&ck.kp).map(|c| c.der().to_vec()));
+                        crate::signer::NESTED.with(|n| n.borrow_mut().take());
+                    }
+                    let Some(r) = slot.borrow_mut().take() else { continue };
+                    let now = Observed::of(&w, op, &r);
+                    o.count("observations_nested_in_a_signer_callback", 1);
+                    o.ev(format!("{step} nested[{obs}] {}", now.tag()));
+                    let want = match (&reference[*obs], pristine.get(*obs)) {
+                        (Some(f), _) => Some(f.clone()),
+                        (None, Some(Some(p))) => Some(p.clone()),
+                        _ => None,
+                    };
+                    if let Some(want) = want {
+                        if let Err((_, d)) = want.same_as(&now) {
+                            o.violate(
+                                "c15-history-dependent",
+                                format!("step {step} observe[{obs}] {} made from inside a signer callback (another generation in progress on the thread): {d}", op.kind()),
+                            );
+                            break;
                         }
                     }
                 }
@@ -624,6 +678,7 @@ fn hstep_tag(h: &HStep) -> String {
         HStep::ObserveTwin { obs, split } => format!("twin[{obs}] split={split}"),
         HStep::ObserveViaClone(i) => format!("via-clone[{i}]"),
         HStep::ObserveReloadedSubject(i) => format!("reloaded-subject[{i}]"),
+        HStep::ObserveNested { obs, carrier } => format!("nested[{obs}] carrier={carrier}"),
         HStep::Noise(n) => format!("noise {}", noise_kind(n)),
     }
 }
@@ -640,6 +695,7 @@ fn noise_kind(n: &Noise) -> &'static str {
         Noise::Export(_) => "export",
         Noise::KeyId(_) => "key-id",
         Noise::Rollover(_) => "rollover",
+        Noise::Flood { .. } => "flood-of-issuers",
     }
 }
 
@@ -845,6 +901,47 @@ fn noise(w: &mut World, n: &Noise) -> String {
         Noise::KeyId(i) => {
             let Some(iss) = w.issuers.get(*i) else { return "skip".into() };
             format!("ok {}", simcore::sha256::short(&iss.cert.key_identifier()))
+        }
+        Noise::Flood { n, seed } => {
+            let bus = crate::signer::Bus::new(BTreeMap::new());
+            let mut digest = Vec::new();
+            let mut ok = 0u32;
+            for i in 0..*n {
+                let mut m = seed.to_le_bytes().to_vec();
+                m.extend_from_slice(&i.to_le_bytes());
+                let spec = crate::keys::KeySpec { alg: simcore::Alg::Ed25519, material: simcore::sha256::hex(&simcore::sha256::sha256(&m)) };
+                let key = std::sync::Arc::new(crate::keys::SimKey::from_spec(&spec));
+                let kp = crate::signer::remote_key_pair(10_000 + i as usize, key, bus.clone(), None);
+                let mut p = rcgen::CertificateParams::default();
+                p.distinguished_name.push(rcgen::DnType::CommonName, format!("flood CA {i}"));
+                p.is_ca = rcgen::IsCa::Ca(rcgen::BasicConstraints::Unconstrained);
+                p.key_usages = vec![rcgen::KeyUsagePurpose::KeyCertSign, rcgen::KeyUsagePurpose::CrlSign];
+                let Ok(ca) = p.self_signed(&kp) else { continue };
+                let crl = rcgen::CertificateRevocationListParams {
+                    this_update: time::OffsetDateTime::from_unix_timestamp(1_700_000_000).unwrap(),
+                    next_update: time::OffsetDateTime::from_unix_timestamp(1_700_086_400).unwrap(),
+                    crl_number: rcgen::SerialNumber::from(i as u64 + 1),
+                    issuing_distribution_point: None,
+                    revoked_certs: vec![],
+                    #[cfg(feature = "crypto")]
+                    key_identifier_method: rcgen::KeyIdMethod::Sha256,
+                    #[cfg(not(feature = "crypto"))]
+                    key_identifier_method: rcgen::KeyIdMethod::PreSpecified(simcore::sha256::sha256(&m)[..20].to_vec()),
+                }
+                .signed_by(&ca, &kp);
+                let mut lp = rcgen::CertificateParams::default();
+                lp.distinguished_name.push(rcgen::DnType::CommonName, "flood leaf");
+                lp.use_authority_key_identifier_extension = true;
+                let leaf = lp.signed_by(&kp, &ca, &kp);
+                if let (Ok(c), Ok(l)) = (crl, leaf) {
+                    ok += 1;
+                    if i % 97 == 0 {
+                        digest.extend_from_slice(&simcore::sha256::sha256(c.der())[..4]);
+                        digest.extend_from_slice(&simcore::sha256::sha256(l.der())[..4]);
+                    }
+                }
+            }
+            format!("ok issuers={ok} {}", simcore::sha256::short(&digest))
         }
         Noise::Rollover(op) => {
             let Op::Issue { issuer, subject, recipe, .. } = op else { return "skip".into() };
